@@ -19,11 +19,12 @@ theorem PCMFrame_slot_even (f : Frame) : (slotBytes f).length % 2 = 0 := by
   rw [slotBytes_length]; omega
 
 /-- frame round trip into a packed-mode object of the same time-stamp kind and alignment, whatever
-    its time stamp, data header and data were (its sync-word / sub-frame attributes are kept) -/
+    its time stamp, data header, data and sync-word / sub-frame attributes were (the latter are cleared) -/
 theorem PCMFrame_roundtrip (f t : Frame) (h : Frame_WF f) (ht : t.throughput = false)
     (hk : sameKind t.ipts f.ipts) (ha : t.alignment = f.alignment) :
     ∃ b, f.pack = .ok b ∧
-      Frame.unpack t b false = ({ t with ipts := f.ipts, hdr := f.hdr, data := f.data }, .ok ()) :=
+      Frame.unpack t b false =
+        ({ t with ipts := f.ipts, hdr := f.hdr, data := f.data, syncword := Option.none, sfid := Option.none }, .ok ()) :=
   ⟨frameBytes f, Frame_pack_eq f h, Frame_unpack_bytes f t h ht hk ha⟩
 
 /-- the frame object the packet decoder creates in packed mode for its `ipts_source` option -/
